@@ -60,6 +60,15 @@ func (e *Engine) monitorByName(name string) *Monitor {
 
 // lockOpOf recognises x.<mu>.Lock() / Unlock() / RLock() / RUnlock() on a lock-style monitor.
 func (e *Engine) lockOpOf(cc *ssa.CallCommon) (m *Monitor, op string, owner ssa.Value) {
+	m, op, owner = e.lockOpOfAny(cc)
+	if m != nil && m.DisciplineOnly {
+		return nil, "", nil
+	}
+	return
+}
+
+// lockOpOfAny also reports discipline-only monitors (used by the discipline scan).
+func (e *Engine) lockOpOfAny(cc *ssa.CallCommon) (m *Monitor, op string, owner ssa.Value) {
 	fn := cc.StaticCallee()
 	if fn == nil || len(cc.Args) == 0 {
 		return nil, "", nil
@@ -223,6 +232,9 @@ func (r *FnRun) enterHolds(fr *Frame, c *Contract) {
 		if m == nil || m.Kind != "lock" {
 			r.unsupported("contract %s: holds names no lock-style monitor %q", c.Name, h.Mon)
 		}
+		if m.DisciplineOnly {
+			continue // checked by the discipline scan only
+		}
 		ctx := fr.ctxHere()
 		owner := ctx.term(ctx.Eval(h.Owner))
 		if fr.st.locks == nil {
@@ -241,7 +253,7 @@ func (fr *Frame) checkHoldsAtCall(c *Contract, vars map[string]EV, pos token.Pos
 	r := fr.R
 	for _, h := range c.Holds {
 		m := r.Eng.monitorByName(h.Mon)
-		if m == nil {
+		if m == nil || m.DisciplineOnly {
 			continue
 		}
 		hold := fr.st.locks[m.Name]
@@ -414,6 +426,19 @@ func (e *Engine) LockDisciplineUnit(m *Monitor) *FnRun {
 			continue
 		}
 		isAccess := func(in ssa.Instruction) (string, bool) {
+			if call, isCall := in.(ssa.CallInstruction); isCall {
+				// calling a function that must run with the lock held is as good as touching the state
+				if cal := call.Common().StaticCallee(); cal != nil {
+					if cc := e.ContractFor(cal); cc != nil {
+						for _, h := range cc.Holds {
+							if h.Mon == m.Name {
+								return "call of " + shortName(cal.String()), true
+							}
+						}
+					}
+				}
+				return "", false
+			}
 			fa, ok := in.(*ssa.FieldAddr)
 			if !ok {
 				return "", false
@@ -463,7 +488,7 @@ func (e *Engine) LockDisciplineUnit(m *Monitor) *FnRun {
 			unlocked := unlockedIn[b]
 			for _, in := range b.Instrs {
 				if call, ok := in.(*ssa.Call); ok {
-					if mm, op, _ := e.lockOpOf(&call.Call); mm == m {
+					if mm, op, _ := e.lockOpOfAny(&call.Call); mm == m {
 						unlocked = op == "unlock"
 					}
 				}
